@@ -273,6 +273,20 @@ func injectFaults(fresh func() []*doc.Node, emit func(f fault)) {
 				x.Body = v.body
 				emit(fault{kind: v.kind + "@" + kindOf(kw), nodes: t, culprits: []*doc.Node{x}, injected: x, parent: par})
 			}
+			// names that only a never-pasted macro declares are not declared
+			for _, v := range []struct{ kind, body string }{
+				{"type-declared-only-in-unpasted-macro", "{\n  \"ref\": @deadT\n}"},
+				{"enum-declared-only-in-unpasted-macro", "{\n  \"k\": 1 // {enum: @deadE}\n}"},
+			} {
+				if kw == "Headers" || kw == "Path" || kw == "Query" {
+					continue
+				}
+				t := fresh()
+				x, par := idxOf(t, k)
+				x.Body = v.body
+				t = append(t, doc.N("MACRO", "@deadM").WithParen().WithKids(doc.N("TYPE", "@deadT").WithBody("{\n  \"d\": 1\n}"), doc.N("ENUM", "@deadE").WithBody("[1, 2]")))
+				emit(fault{kind: v.kind + "@" + kindOf(kw), nodes: t, culprits: []*doc.Node{x}, injected: x, parent: par})
+			}
 		}
 		// 7. (for C02) a fault inside a schema that is only found when the schema is loaded: the body
 		// keeps its properties and gets one more, faulty, first property
